@@ -166,4 +166,29 @@ theorem endOfParagraph_08 (isSpace : Char → Bool) (d : C08.Doc) (count : Nat) 
     simp only [Option.map_some, e, ← cursorDown_08 d (i + 1)]
     rw [if_pos hne]
 
+
+/-! ### the excluded region of the theorems above that assume `cur ≤ len(text)`
+
+  `Document.__init__` asserts `cursor_position <= len(text)`; beyond it the models below really compute
+  different values (witnesses), so the hypothesis cannot be dropped.  Neither correspondence exercises
+  this region (the real constructor raises `AssertionError`). -/
+
+def spc (c : Char) : Bool := c == ' '
+
+theorem col_09_outside_disagree : C09.col ⟨[], 1⟩ ≠ C02.col ⟨[], 1⟩ := by decide
+theorem col_01_outside_disagree : C01.cursorCol ⟨[], 1⟩ ≠ C02.col ⟨[], 1⟩ := by decide
+theorem cursorRight_09_outside_disagree :
+    ((C09.moveRight ⟨[], 1⟩ (-1)).cur : Int) ≠ (1 : Int) + C02.cursorRight ⟨[], 1⟩ (-1) := by decide
+theorem cursorLeft_14_outside_disagree :
+    (min (C14.col [] 1) 1 : Int) ≠ -C02.cursorLeft ⟨[], 1⟩ 1 := by decide
+theorem lastNonBlank_08_outside_disagree :
+    (C08.textObject spc spc ⟨[], 1⟩ 1 .gUnder).start ≠ C02.lastNonBlank spc ⟨[], 1⟩ := by decide
+theorem startOfDocument_08_outside_disagree :
+    -((C08.Doc.before ⟨[], 1⟩).length : Int) ≠ C02.startOfDocument ⟨[], 1⟩ := by decide
+theorem endOfDocument_08_outside_disagree :
+    ((C08.Doc.after ⟨[], 1⟩).length : Int) ≠ C02.endOfDocument ⟨[], 1⟩ := by decide
+theorem isAtEndOfLine_16_outside_disagree :
+    C16.viAtEolNonEmpty ⟨[['a']], 0, 2⟩ ≠
+      (C02.isAtEndOfLine ⟨['a'], 2⟩ && decide ((C02.currentLine ⟨['a'], 2⟩).length > 0)) := by decide
+
 end Ptk.AgreeDoc
